@@ -244,7 +244,9 @@ pub fn run_program(prog: Program, opts: &Opts, plan: noise::Plan) -> RunResult {
     // 1. pool configuration at quiescence, noise off, on a helper so that a call that never returns is observed
     noise::set_plan(noise::Plan::Off, prog.run_seed);
     POOL_MAX_NOW.store(usize::MAX, Ordering::SeqCst);
-    let (pool, mode) = (prog.pool, prog.pool_mode);
+    // the eager spawn loop of set_max_threads only ends once every pool thread is seen busy at the same time: under the
+    // interpreter's frequent pre-emption that can take very long, so the eager mode is a native-only configuration
+    let (pool, mode) = (prog.pool, if !native && prog.pool_mode == PoolMode::Eager { PoolMode::Warm } else { prog.pool_mode });
     let cfg = on_helper(native, watchdog, move || configure_pool(pool, mode));
     let handles = build(prog, native);
     let ctx = Arc::clone(&handles.ctx);
